@@ -113,6 +113,7 @@ var c15Containers = []struct {
 	{"contentFor", "<% contentFor(\"c\") { %>\n  t\n", "\n<% } %>\n<%= contentOf(\"c\") %>\n", true},
 	{"nested-if-for", "<%= if (true) { %>\n<%= for (x) in [1] { %>\n", "\n<% } %>\n<% } %>\n", false},
 	{"after-executed-block", "<%= if (true) { %>\n  t <%= 1 %>\n<% } %>\nmid\n", "\n", false},
+	{"after-multi-line-string-with-escaped-quotes", "<% let ms = \"one\ntwo \\\"q\\\" three\nfour \\\"\nfive\" %>\n<% let bs = `a\nb \\` %>\n", "\n", false},
 	{"after-executed-loop", "<%= for (x) in [1, 2] { %>\n  <%= x %>\n<% } %>\n", "\n", false},
 	{"after-helper-block", "<%= cap() { %>\n b \n<% } %>\n", "\n", false},
 	{"after-fn-call", "<% let f3 = fn() {\n let q = 1\n return q\n} %>\n<%= f3() %>\n", "\n", false},
